@@ -1,5 +1,6 @@
 import PncProofs.BridgeLemmas
 import PncProofs.C09
+import PncProofs.C13
 
 /-!
 # C08 — CAMx binary write/read round trip (uamiv family): property theorems
@@ -128,5 +129,17 @@ theorem hour_bits_roundtrip : ∀ n : Fin 24, truncF32 (f32OfNat n.val) = (n.val
 example : 1 ≤ Props.C09.exFile.nz ∧ Props.C09.exFile.steps ≠ [] ∧
     decodeMM Props.C09.exFile.encode 0 = .ok (viewOf Props.C09.exFile) := by
   refine ⟨by decide, by decide, by decide +kernel⟩
+
+
+/-! ### slab formats -/
+
+/-- **write then read (slab formats)**: what the memory-mapped reader presents for the bytes the writer
+produces is the content that was written — same number of steps and layers, time flags and cells of every
+variable — for every well-formed content of at least two steps, any grid, layer count and payload. Writing
+that content again produces the same bytes because the encoder is a function of the content alone. -/
+theorem slab_roundtrip (k : Slab.Kind) (f : Slab.SFile) (h : Props.C13.WF f) :
+    Slab.mmDecode k f.cells (Slab.encode f) = Slab.viewOf k f ∧
+    parseRecords (Slab.encode f).length (Slab.encode f) = some (Slab.rows f) :=
+  ⟨Props.C13.mm_decode_encode k f h, Props.C09.slab_tiles f⟩
 
 end Props.C08
